@@ -144,7 +144,7 @@ class C18(World):
                 ok_floor = False
             if not ok_floor:  # the floor could not be established for this fluid: fall back to a well-behaved one
                 fl, te, tcnd = "R134a", 273.15 + args.uniform(-20, 10), 273.15 + args.uniform(40, 80)
-            return dict(op="solve", refrigerant=fl, Te=round(te - 273.15, 2), Tc=round(tcnd - 273.15, 2), dT_sh=dsh, dT_sc=dsc, eta=float(args.choice([1.0, 0.9, 0.7, 0.7, 0.5, round(args.uniform(0.2, 1.0), 3)])), Q=args.choice([1.0, 100.0, 2500.0, 100, 7.25, 2.0e-5, 1.0e-3]))
+            return dict(op="solve", ihx=(float(args.choice([5, 10, 40])) if args.random() < 0.12 else 0.0), refrigerant=fl, Te=round(te - 273.15, 2), Tc=round(tcnd - 273.15, 2), dT_sh=dsh, dT_sc=dsc, eta=float(args.choice([1.0, 0.9, 0.7, 0.7, 0.5, round(args.uniform(0.2, 1.0), 3)])), Q=args.choice([1.0, 100.0, 2500.0, 100, 7.25, 2.0e-5, 1.0e-3]))
 
         steps = []
         solved = [False] * swarm["objects"]
@@ -320,15 +320,16 @@ class C18(World):
             tick("p_sat")
             try:
                 def bracket(T, p):
+                    w_ = 0.0005 if p >= 1000.0 else 0.05  # kelvin; below 1 kPa the library's own entry points scatter more
                     for q in (1, 0):
-                        lo_ = CP.PropsSI("P", "T", T - 0.05, "Q", q, a["refrigerant"])
-                        hi_ = CP.PropsSI("P", "T", T + 0.05, "Q", q, a["refrigerant"])
+                        lo_ = CP.PropsSI("P", "T", T - w_, "Q", q, a["refrigerant"])
+                        hi_ = CP.PropsSI("P", "T", T + w_, "Q", q, a["refrigerant"])
                         if lo_ * (1 - 1e-9) <= p <= hi_ * (1 + 1e-9):
                             return True
                     return False
 
                 if not (bracket(a["Te"] + 273.15, P[0]) and bracket(a["Tc"] + 273.15, P[1])):
-                    V("p_sat", s, step, f"pressures {P[0]!r}/{P[1]!r} are not the saturation pressures of {a['Te']}/{a['Tc']} C (independent call, +-0.05 K)")
+                    V("p_sat", s, step, f"pressures {P[0]!r}/{P[1]!r} are not the saturation pressures of {a['Te']}/{a['Tc']} C (independent call, +-0.0005 K above 1 kPa, +-0.05 K below)")
             except Exception:
                 probe("p_sat_independent_call_failed")
             if m["regime"] == "regular":
@@ -344,8 +345,25 @@ class C18(World):
         def judge_streams(o, step, kind, sc):
             c, m = objs[o], M[o]
             lst = [(s.name, s.t_supply, s.t_target, s.heat_flow, s.dt_cont, s.type) for s in sc._streams.values()] if hasattr(sc, "_streams") else [(s.name, s.t_supply, s.t_target, s.heat_flow, s.dt_cont, s.type) for s in sc]
-            cond = [x for x in lst if x[0].startswith("Condenser")]
-            evap = [x for x in lst if x[0].startswith("Evaporator")]
+            # which streams belong to the condenser set: by request for single-kind requests (names are not part of the
+            # property); for a combined request by the name hint ("cond"/"evap"), else by the count learnt from an earlier
+            # single-kind request on the same solved state, else the combined answer is not judged
+            if kind == "c":
+                cond, evap = lst, []
+                m["n_cond"] = len(lst)
+            elif kind == "e":
+                cond, evap = [], lst
+                m["n_evap"] = len(lst)
+            else:
+                hints = ["c" if "cond" in x[0].lower() else "e" if "evap" in x[0].lower() else "?" for x in lst]
+                if "?" not in hints:
+                    cond = [x for x, h in zip(lst, hints) if h == "c"]
+                    evap = [x for x, h in zip(lst, hints) if h == "e"]
+                elif m.get("n_cond") is not None and m.get("n_evap") is not None and m["n_cond"] + m["n_evap"] == len(lst):
+                    cond, evap = lst[: m["n_cond"]], lst[m["n_cond"] :]
+                else:
+                    probe("combined_request_not_attributable")
+                    return
             pat = "".join(m["pattern"])
             order = "evap_first" if pat.replace("b", "").startswith("e") or (kind == "e" and "c" not in pat and "b" not in pat) else "cond_first"
             for label, part, total, want in (("cond", cond, c.Q_cond, kind in "cb"), ("evap", evap, c.Q_evap, kind in "eb")):
@@ -421,7 +439,7 @@ class C18(World):
                     elif f in ("dT_sh", "dT_sc"):
                         a[f] = [0.0, 2.0, 5.0][k] if a[f] != [0.0, 2.0, 5.0][k] else 3.0
                     else:
-                        a[f] = round(a[f] + [-1.0, 0.5, 1.0][k] * (1 if f == "Tc" else -1), 2)
+                        a[f] = round(a[f] + [-1.0, 0.004, -0.003][k] * (1 if f == "Tc" else -1), 4)  # incl. moves far below any rounding a cache key might apply
                     st = dict(st, refrigerant=a["refrigerant"])
                     probe("re_solve_one_argument_changed")
                 else:
@@ -441,7 +459,7 @@ class C18(World):
                     probe("resolve_with_refrigerant_none")
                 was = m["solved"]
                 try:
-                    c.solve(Te=a["Te"], Tc=a["Tc"], dT_sh=a["dT_sh"], dT_sc=a["dT_sc"], eta_comp=a["eta"], refrigerant=ref, ihx_gas_dt=0.0, Q_h_total=a["Q"])
+                    c.solve(Te=a["Te"], Tc=a["Tc"], dT_sh=a["dT_sh"], dT_sc=a["dT_sc"], eta_comp=a["eta"], refrigerant=ref, ihx_gas_dt=float(st.get("ihx") or 0.0) if op == "solve" else 0.0, Q_h_total=a["Q"])
                     ok = True
                 except Exception as e:
                     ok = False
@@ -450,7 +468,7 @@ class C18(World):
                 if ok:
                     if was:
                         probe("re_solve")
-                    m.update(solved=True, args=a, first={}, pattern=[], metrics=None)
+                    m.update(solved=True, args=a, first={}, pattern=[], metrics=None, n_cond=None, n_evap=None)
                     lim = limits(a["refrigerant"])
                     in_domain = lim is not None and lim[0] + 5.0 - 0.011 <= a["Te"] + 273.15 and a["Tc"] + 273.15 <= lim[1] - 10.0 + 0.011 and a["Tc"] - a["Te"] >= a["dT_sh"] + a["dT_sc"] + 5.0 - 1e-9 and op in ("solve", "solve_variant")
                     if in_domain:
